@@ -11,10 +11,6 @@ var Missing = map[string]int{}
 func init() {
 	externals["internal/reflectlite.Swapper"] = swapper
 	externals["reflect.Swapper"] = swapper
-	externals["errors.Is"] = func(fr *frame, args []value) value {
-		e, t := args[0].(iface), args[1].(iface)
-		return e.t != nil && t.t != nil && types.Identical(e.t, t.t) && e.v == t.v
-	}
 }
 
 func swapper(fr *frame, args []value) value {
